@@ -25,7 +25,7 @@ for d in seeded/${SEEDS:-C*}/; do
   res=$(timeout 2400 ./check $prop quick 2>&1)
   rc=$?
   by="$prop"
-  if [ $rc != 1 ]; then
+  if [ $rc != 1 ] && [ "${NEIGHBOURS:-1}" != 0 ]; then
     # not reported by the check of the property it was written for: try the checks of neighbouring properties
     for alt in C01 C09 C13 C10 C07 C12 C14 C05 C19 C15 C11 C08 C06 C16 C02 C03 C04 C18 C17; do
       [ $alt = $prop ] && continue
